@@ -90,6 +90,63 @@ def independent_latest(group: str, param: str, d: D):
     return None
 
 
+def prior_date_search(r, quick):
+    """`access_different_date`: env(d).<p>_vorjahr must be env(same day one year earlier).<p> and
+    <p>_jahresanfang must be env(1 January).<p> — on the real loader, at every day where that can matter
+    (one year ± 1 day after each entry of the parameter, around the end of February, around New Year)."""
+    import warnings
+    from _gettsim.policy_environment import _load_parameter_group_from_yaml as load
+    paramsio._cached_yaml()
+    one = datetime.timedelta(days=1)
+    n = 0
+    for g in extract.param_groups():
+        raw = extract.raw_yaml(g)
+        for p, body in raw.items():
+            if not isinstance(body, dict) or "access_different_date" not in body:
+                continue
+            mode = body["access_different_date"]
+            entries_p = sorted(k for k in body if isinstance(k, D))
+            days = set()
+            for e in entries_p:
+                for delta in (364, 365, 366, 367, 729, 730, 731):
+                    days.add(e + datetime.timedelta(days=delta))
+                days |= {e - one, e, e + one}
+            for y in range(max(1985, entries_p[0].year), entries_p[-1].year + 3):
+                days |= {D(y, 2, 28), D(y, 3, 1), D(y, 12, 31), D(y, 1, 1), D(y, 6, 30), D(y, 7, 1)}
+                if (y % 4 == 0 and y % 100 != 0) or y % 400 == 0:
+                    days.add(D(y, 2, 29))
+            days = sorted(d for d in days if d >= entries_p[0])
+            if quick:
+                days = days[:: max(1, len(days) // 120)] + [d for d in days if (d.month, d.day) in ((6, 30), (2, 29), (12, 31))]
+            for d in sorted(set(days)):
+                with warnings.catch_warnings():
+                    warnings.simplefilter("ignore")
+                    try:
+                        now = load(d, g, parameters=[p])
+                        ref_day = sub_year(d) if mode == "vorjahr" else d.replace(month=1, day=1)
+                        ref = load(ref_day, g, parameters=[p])
+                    except Exception as ex:  # noqa: BLE001
+                        r.broke("implementation-raises", f"_load_parameter_group_from_yaml({d}, {g}, [{p}])", str(ex)[:300])
+                        continue
+                n += 1
+                key = f"{p}_{mode}"
+                got, want = now.get(key, "<absent>"), ref.get(p, "<absent>")
+                if not _same(got, want):
+                    r.hit({"kind": "prior-date-lookup", "param": f"{g}.{p}", "mode": mode},
+                          f"{g}.{key} on {d} is {got!r}, but {g}.{p} on {ref_day} was {want!r}",
+                          {"date": d.isoformat(), "reference_day": ref_day.isoformat(), "param": f"{g}.{p}",
+                           "observed": str(got), "expected": str(want)})
+    r.evaluations += n
+    r.distinct.add(common.digest(["prior-date", n]))
+    r.extra["prior_date_lookups_checked"] = n
+
+
+def _same(a, b):
+    if isinstance(a, dict) and isinstance(b, dict):
+        return set(a) == set(b) and all(_same(a[k], b[k]) for k in a)
+    return a == b or (isinstance(a, float) and isinstance(b, float) and a != a and b != b)
+
+
 def run(tier: str) -> int:
     r = common.Run("C07", tier)
     quick = tier == "quick"
@@ -197,6 +254,7 @@ def run(tier: str) -> int:
                                                      "expected": str(want)})
     r.extra.setdefault("correspondence", {})["environment + function table: model vs code"] = {
         "days": len(ords), "env_disagreements": bad_env, "function_table_disagreements": bad_fun}
+    prior_date_search(r, quick)
     # boundary days of every implementation switch (inclusive bounds)
     from _gettsim.policy_environment import load_functions_for_date
     import warnings
